@@ -12,6 +12,8 @@ CHECKS = {
          "reference written from the published algorithms in harness/vh-mpq/src/lib.rs; a shared misreading would go unnoticed"),
  "C02": ("exploration", "differential exchange of archives in both directions with an independent MPQ implementation (lib/refmpq.py): every builder-written archive of the published-format subset is parsed and extracted by the reference, every reference-written archive is read by the library; mismatches are diagnosed against named deviation models so other changes stay visible", "differential oracle vs independent implementation, both directions", "§6 C02",
          "trusted base is an independent reading of the public MPQ format, not StormLib; subset V1/V2, classic tables, none/zlib/bzip2, no sector CRC"),
+ "C05": ("exploration", "structured mutation of valid seed files of all 12 formats (every prefix, boundary values at every aligned offset of header/table/chunk-header/count regions located by an independent walker, chunk reorder/duplicate/delete/resize, seeded havoc) driven through every public open/parse/list/read entry point, each batch in a forked child", "panic trap, abort / stack-overflow / allocation-abort attribution per forked batch, heap-request monitor (single request >= 256 MiB or growth >= 512 MiB for inputs <= 4 MiB), per-call time budget with hang confirmation", "§6 C05 / §3 M1-M4",
+         "release profile; inputs <= 4 MiB; MPQ seeds from the builder and from the independent writer lib/refmpq.py; three known sites remain (PKWare decoder x2, DXT output sized from legal header dimensions)"),
  "C06": ("exploration", "operation histories on MutableArchive (bounded-exhaustive singles and pairs over a 98-letter alphabet on up to 16 starting archives, sampled triples, long random histories) checked against a plain map after close + reopen", "reference-model monitor (persistent map) over operation histories; probe-loop step-counter hook for termination", "§6 C06",
          "five history-level trigger predicates are known findings (V3+ modification, compact without listfile, compact on a stale view, block-table growth past the slack, rename of an encrypted file): histories in which one of them holds are reported under it and not checked further"),
  "C07": ("exploration", "rebuild sweep source configuration x target version x overrides x verify/skip filters with independent re-read of source and target, summary arithmetic and compare_archives agreement", "reference re-read oracle (set/bytes comparison) + summary-count monitor", "§6 C07",
